@@ -75,6 +75,8 @@ type FuncExec struct {
 	resNames   []string
 	preAxioms  bool
 	selfVars   map[*ssa.FreeVar]bool
+	cutDone    map[*LoopInfo]bool
+	writable   map[*ssa.Alloc]bool
 	pendingLogs []string
 	regionBefore func(ssa.Instruction) bool
 	specErrs   []string
@@ -370,7 +372,7 @@ func (fx *FuncExec) run() {
 		for i, cl := range fx.con.Requires {
 			t := env.boolTerm(cl.Expr)
 			fx.noteSpecErr(env, cl)
-			st.assume(t)
+			st.assumeGlobal(t)
 			_ = i
 		}
 		fx.addObl("cover:requires", "cover", fx.con.Prop, "preconditions are satisfiable", fx.con.Line, true, st, tTrue, nil)
@@ -629,6 +631,29 @@ func (fx *FuncExec) loopVars(ps *pathState, li *LoopInfo) map[string]Val {
 	return vars
 }
 
+func (fx *FuncExec) isRangeLoop(li *LoopInfo) bool {
+	if len(li.header.Instrs) == 0 {
+		return false
+	}
+	if u, ok := li.header.Instrs[0].(*ssa.UnOp); ok && u.Op == token.MUL {
+		if a, ok := u.X.(*ssa.Alloc); ok && a.Comment == "rangeindex" {
+			return true
+		}
+	}
+	return false
+}
+
+func (fx *FuncExec) autoRangeVariant(ps *pathState, li *LoopInfo) {
+	lv := fx.loopVars(ps, li)
+	ri, ok1 := lv["rangeindex"].(Scalar)
+	rl, ok2 := lv["rangelen"].(Scalar)
+	if ok1 && ok2 {
+		// the hidden counter never exceeds the bound (it is only incremented while below it)
+		ps.st.assume(tAnd(tLe(intLit(-1), ri.T), tLt(ri.T, tAdd(rl.T, intLit(1)))))
+		ps.variants[li] = []Term{tSub(rl.T, ri.T)}
+	}
+}
+
 func (fx *FuncExec) headerPos(li *LoopInfo) token.Pos {
 	for _, in := range li.header.Instrs {
 		if in.Pos().IsValid() {
@@ -683,7 +708,17 @@ func (fx *FuncExec) execBlock(ps *pathState, blk *ssa.BasicBlock, pred *ssa.Basi
 						fx.addObl(fmt.Sprintf("dec loop#%d", li.ord), "dec", fx.prop(cl), "variant decreases and is bounded: "+cl.Text, cl.Line, false, st, tAnd(tLt(cur, prev), tLe(intLit(0), prev)), ps.trail)
 					}
 				}
-				if li.spec == nil || len(li.spec.Dec) == 0 {
+				if (li.spec == nil || len(li.spec.Dec) == 0) && fx.isRangeLoop(li) {
+					// a range loop has a fixed bound: its hidden counter increases towards it
+					lv := fx.loopVars(ps, li)
+					ri, ok1 := lv["rangeindex"].(Scalar)
+					rl, ok2 := lv["rangelen"].(Scalar)
+					prev := ps.variants[li]
+					if ok1 && ok2 && len(prev) == 1 {
+						cur := tSub(rl.T, ri.T)
+						fx.addObl(fmt.Sprintf("dec loop#%d", li.ord), "dec", fx.propDefault(), "range loop: the counter approaches its fixed bound", fx.con.Line, false, st, tAnd(tLt(cur, prev[0]), tLe(intLit(0), prev[0])), ps.trail)
+					}
+				} else if li.spec == nil || len(li.spec.Dec) == 0 {
 					if fx.con != nil && !fx.con.Trusted {
 						// a loop under contract without a variant: termination is not proved
 						fx.c.unsup("loop#%d has no decreases clause (termination not proved)", li.ord)
@@ -692,11 +727,27 @@ func (fx *FuncExec) execBlock(ps *pathState, blk *ssa.BasicBlock, pred *ssa.Basi
 				return
 			}
 			if li.spec != nil {
+				for _, cl := range li.spec.Assume {
+					t := env.boolTerm(cl.Expr)
+					fx.noteSpecErr(env, cl)
+					st.assume(t)
+				}
 				for i, cl := range li.spec.Inv {
 					t := env.boolTerm(cl.Expr)
 					fx.noteSpecErr(env, cl)
 					fx.addObl(fmt.Sprintf("inv-entry loop#%d.%s", li.ord, clauseName(cl, i)), "inv-entry", fx.prop(cl), cl.Text, cl.Line, false, st, t, ps.trail)
 				}
+			}
+			if fx.con != nil && fx.con.CutLoops {
+				// modular loop: explore what follows the header once, knowing only the invariant
+				if fx.cutDone == nil {
+					fx.cutDone = map[*LoopInfo]bool{}
+				}
+				if fx.cutDone[li] {
+					return
+				}
+				fx.cutDone[li] = true
+				st.pc = append([]Term(nil), st.keep...)
 			}
 			if ps.loopSnap == nil {
 				ps.loopSnap = map[int]*State{}
@@ -720,6 +771,9 @@ func (fx *FuncExec) execBlock(ps *pathState, blk *ssa.BasicBlock, pred *ssa.Basi
 				if len(li.spec.Inv) > 0 {
 					fx.addObl(fmt.Sprintf("cover:loop#%d", li.ord), "cover", fx.con.Prop, "loop invariant is satisfiable", fx.con.Line, true, st, tTrue, ps.trail)
 				}
+			}
+			if fx.con != nil && (li.spec == nil || len(li.spec.Dec) == 0) && fx.isRangeLoop(li) {
+				fx.autoRangeVariant(ps, li)
 			}
 		}
 	}
